@@ -2,12 +2,16 @@
 """Run every claimed check (quick tier) for the given seeds and print one line each."""
 import json, os, subprocess, sys, time
 HERE = os.path.dirname(os.path.dirname(os.path.abspath(__file__)))
-seeds = sys.argv[1:] or ["0"]
+thorough = "--thorough" in sys.argv
+only = [a for a in sys.argv[1:] if a.startswith("C")]
+seeds = [a for a in sys.argv[1:] if a.isdigit()] or ["0"]
 m = json.load(open(os.path.join(HERE, "MANIFEST.json")))
 for seed in seeds:
     for c in m["checks"]:
+        if only and c["property_id"] not in only:
+            continue
         t = time.time()
-        r = subprocess.run(c["quick_cmd"], shell=True, capture_output=True, text=True, cwd=HERE,
-                           env=dict(os.environ, VERIF_SEED=seed, VERIF_TIER="quick"))
+        r = subprocess.run(c["thorough_cmd" if thorough else "quick_cmd"], shell=True, capture_output=True, text=True, cwd=HERE,
+                           env=dict(os.environ, VERIF_SEED=seed, VERIF_TIER="thorough" if thorough else "quick"))
         lines = [l for l in r.stdout.splitlines() if l.startswith(("VIOLATION", "KNOWN", "OK", "FAIL"))]
         print("seed=%s %s exit=%d %.0fs | %s" % (seed, c["property_id"], r.returncode, time.time() - t, " || ".join(lines)[:300]), flush=True)
